@@ -5,7 +5,7 @@
           301 application books, 302 queue books, 303 node allocation not owned by a live application,
           304 application allocation not on its node, 305 root vs nodes, 306 leak after drain. *)
 From Coq Require Import List ZArith NArith Bool.
-From YK Require Import Base.Res Core.Obs Core.Ledger Oracles.CoreModelCheck.
+From YK Require Import Base.Res Core.Obs Core.Ledger Core.Ledger2 Oracles.CoreModelCheck.
 Import ListNotations.
 Open Scope N_scope.
 
@@ -123,13 +123,13 @@ Fixpoint steps_check (f : ostate -> ostep -> list N) (pre : ostate) (i : N) (l :
 Definition hist_check (f : ohistory -> ostate -> ostep -> list N) (h : ohistory) : list (N * N) :=
   steps_check (f h) (h_init h) 0 (h_steps h).
 
-(* as steps_check, but failures at or after a known-finding trigger (Core/Ledger.v known_trigger) are reported
+(* as steps_check, but failures at or after a known-finding trigger (Core/Ledger.v known_trigger, Core/Ledger2.v known_trigger_ext) are reported
    with the known kind base + 60 + trigger number *)
 Fixpoint steps_check_poison (base : N) (f : ostate -> ostep -> list N) (poison : option N) (pre : ostate) (i : N) (l : list ostep) : list (N * N) :=
   match l with
   | [] => []
   | st :: t =>
-      let poison' := match poison with Some p => Some p | None => known_trigger pre st end in
+      let poison' := match poison with Some p => Some p | None => known_trigger_ext pre st end in
       let ks := f pre st in
       let ks' := match poison' with
                  | Some p => match ks with [] => [] | _ => [base + 60 + p] end
